@@ -418,14 +418,17 @@ func RunReal(c *Case) (obs *Observed, err error) {
 				obs.Panic = fmt.Sprint(p)
 			}
 		}()
-		resp = graphql.Execute(&graphql.Request{
+		req := &graphql.Request{
 			VariableValues: vars,
 			Context:        ctx,
 			Document:       cc.doc,
 			Schema:         cc.schema,
 			InitialValue:   &objVal{rt: rt, shape: c.Shape, w: c.World, path: ""},
-			IdleHandler:    rt.idle,
-		})
+		}
+		if !c.NoIdle {
+			req.IdleHandler = rt.idle
+		}
+		resp = graphql.Execute(req)
 	}()
 	obs.Rounds = rt.rounds
 	obs.Promises = rt.all
